@@ -334,6 +334,8 @@ func init() {
 		fragmentedDelivery(o, r, &id)
 		lostReplies(o, &id)
 		abandonedThenNext(o, &id)
+		replyAsYouGo(o, &id, goChecked)
+		emptyUnaryReply(o, &id)
 		o.Shard = 30
 	}
 }
@@ -744,5 +746,96 @@ func abandonedThenNext(o *hx.Out, id *int) {
 		}
 		*id++
 		goChecked(o, "abandoned_then_next_httpgrpc", *id, ok, d)
+	}
+}
+
+// replyAsYouGo: a bidi handler that answers each request as it arrives, over a real HTTP/1.1 connection, against
+// a half-duplex client (send everything, CloseSend, then receive).  net/http closes the request body when the
+// handler first writes, discarding what was not read: the call must then FAIL (as the package documents), or
+// deliver everything; it must never end successfully with the handler having been given only some of the requests.
+func replyAsYouGo(o *hx.Out, id *int, emit func(*hx.Out, string, int, bool, map[string]interface{})) {
+	for _, n := range []int{2, 5, 9} {
+		var handlerGot int32
+		svc := &hx.Svc{Stream: func(kind string, ss grpc.ServerStream) error {
+			for {
+				m := &hx.Msg{}
+				if err := ss.RecvMsg(m); err != nil {
+					if err == io.EOF {
+						return nil
+					}
+					return err
+				}
+				atomic.AddInt32(&handlerGot, 1)
+				if err := ss.SendMsg(&hx.Msg{Count: m.Count}); err != nil {
+					return err
+				}
+			}
+		}}
+		hs := httpgrpc.NewServer()
+		hs.RegisterService(hx.Desc(hx.SvcName), svc)
+		ts := httptest.NewServer(hs)
+		u, _ := url.Parse(ts.URL)
+		ch := &httpgrpc.Channel{Transport: &http.Transport{}, BaseURL: u}
+		ctx, cancel := context.WithTimeout(context.Background(), 5*time.Second)
+		var seq []*hx.Msg
+		for i := 1; i <= n; i++ {
+			seq = append(seq, &hx.Msg{Count: int32(i), Payload: bytes.Repeat([]byte{byte(i)}, 200)})
+		}
+		got, err := halfDuplexCtx(ctx, ch, "BD", seq)
+		cancel()
+		ts.Close()
+		hg := int(atomic.LoadInt32(&handlerGot))
+		ok := err != nil || (len(got) == n && hg == n)
+		d := map[string]interface{}{"transport": "httpgrpc over a real connection", "kind": "BD, handler replies to each request as it arrives, client sends all then receives",
+			"requests_sent": n, "handler_received": hg, "replies_received": len(got), "call_result": fmt.Sprint(err)}
+		if !ok {
+			o.Violate("a call ended successfully although the handler was given only some of the request messages", d, hg, n)
+		}
+		*id++
+		emit(o, "reply_as_you_go", *id, ok, d)
+	}
+}
+
+func halfDuplexCtx(ctx context.Context, ch grpc.ClientConnInterface, kind string, msgs []*hx.Msg) ([]*hx.Msg, error) {
+	cs, err := ch.NewStream(ctx, hx.StreamDescOf(kind), "/verif.Svc/"+kind)
+	if err != nil {
+		return nil, err
+	}
+	defer runtime.KeepAlive(cs)
+	for _, m := range msgs {
+		if err := cs.SendMsg(m); err != nil {
+			break
+		}
+	}
+	cs.CloseSend()
+	var got []*hx.Msg
+	for {
+		m := &hx.Msg{}
+		err := cs.RecvMsg(m)
+		if err == io.EOF {
+			return got, nil
+		}
+		if err != nil {
+			return got, err
+		}
+		got = append(got, m)
+	}
+}
+
+// emptyUnaryReply: a unary handler that answers a NON-empty request with a message whose encoding is empty (an
+// acknowledgement with nothing set): the caller receives exactly that -- an empty message, not anything else
+func emptyUnaryReply(o *hx.Out, id *int) {
+	svc := &hx.Svc{Unary: func(ctx context.Context, req *hx.Msg) (*hx.Msg, error) { return &hx.Msg{}, nil }}
+	for _, t := range bothTransports(svc) {
+		out := &hx.Msg{}
+		err := t.ch.Invoke(context.Background(), "/verif.Svc/U", &hx.Msg{Count: 41, Payload: []byte("a request with content")}, out)
+		ok := err == nil && proto.Equal(out, &hx.Msg{})
+		d := map[string]interface{}{"transport": t.name, "kind": "unary", "request": "count 41 and a payload", "handler_returns": "a message with nothing set", "received": out.String(), "error": fmt.Sprint(err)}
+		if !ok {
+			o.Violate("a unary call whose reply has an empty encoding delivered something else", d, out.String(), "")
+		}
+		*id++
+		goChecked(o, "empty_unary_reply_"+t.name, *id, ok, d)
+		t.stop()
 	}
 }
